@@ -162,6 +162,12 @@ class CountModel(Model):
         Model.__init__(self)
         self.name, self.start = name, start
 
+    def expected_data(self):
+        return self.start + self.n
+
+    def data_ok(self, got):
+        return got == self.start + self.n
+
     def judge(self, outcome, objs):
         problems = []
         item = self._one(outcome, problems)
@@ -219,6 +225,13 @@ class MeanModel(Model):
         self._context(ctx, problems)
         return problems
 
+    def raises(self):
+        """compute() has nothing to yield and must raise."""
+        return self.n == 0 and not self.pass_on_empty
+
+    def expected_data(self):
+        return float(sum(Fraction(d) for d in self.datas()) / self.n) if self.n else None
+
     def judge_empty(self, outcome):
         if self.pass_on_empty:
             if outcome != ("ok", []):
@@ -242,6 +255,47 @@ class VarianceModel(MeanModel):
         MeanModel.__init__(self, pass_on_empty=pass_on_empty)
         self.corrected = corrected
 
+    def raises(self):
+        return MeanModel.raises(self) or (self.n == 1 and self.corrected)
+
+    def exact(self):
+        """(variance, mean, mean of squares) as exact rationals; needs n >= 1 (n >= 2 when corrected)."""
+        n = self.n
+        xs = [Fraction(d) for d in self.datas()]
+        mean = sum(xs) / n
+        msq = sum(x * x for x in xs) / n
+        var = sum((x - mean) ** 2 for x in xs) / (n - 1 if self.corrected else n)
+        return var, mean, msq
+
+    def expected_data(self):
+        if self.n == 0 or self.raises():
+            return None
+        var, mean, _ = self.exact()
+        return (float(var), float(mean), self.n)
+
+    def data_problems(self, data):
+        """List of (feature, expected, observed) for the yielded (variance, mean, count)."""
+        n = self.n
+        var, mean, msq = self.exact()
+        try:
+            gv, gm, gc = data[0], data[1], data[2]
+            ok = len(data) == 3
+        except (TypeError, IndexError, KeyError):
+            ok = False
+        if not ok:
+            return [("shape", "(variance, mean, count)", data)]
+        out = []
+        if not _close(gv, var, scale=max(msq, 1)):
+            out.append(("variance", float(var), gv))
+        if not _close(gm, mean, scale=1):
+            out.append(("mean", float(mean), gm))
+        if not (gc == n):
+            out.append(("count", n, gc))
+        return out
+
+    def data_ok(self, got):
+        return not self.data_problems(got)
+
     def judge(self, outcome, objs):
         n = self.n
         if n == 0:
@@ -255,24 +309,8 @@ class VarianceModel(MeanModel):
         if problems:
             return problems
         data, ctx = split_value(item)
-        xs = [Fraction(d) for d in self.datas()]
-        mean = sum(xs) / n
-        msq = sum(x * x for x in xs) / n
-        var = sum((x - mean) ** 2 for x in xs) / (n - 1 if self.corrected else n)
-        try:
-            gv, gm, gc = data[0], data[1], data[2]
-            ok = len(data) == 3
-        except (TypeError, IndexError, KeyError):
-            ok = False
-        if not ok:
-            problems.append(("aggregate", "shape", "(variance, mean, count)", data))
-        else:
-            if not _close(gv, var, scale=max(msq, 1)):
-                problems.append(("aggregate", "variance", float(var), gv))
-            if not _close(gm, mean, scale=1):
-                problems.append(("aggregate", "mean", float(mean), gm))
-            if not (gc == n):
-                problems.append(("aggregate", "count", n, gc))
+        for feature, want, got in self.data_problems(data):
+            problems.append(("aggregate", feature, want, got))
         self._context(ctx, problems)
         return problems
 
@@ -297,8 +335,13 @@ class VectorModel(Model):
 
     def judge(self, outcome, objs):
         problems = []
+        if any(isinstance(m, MeanModel) and m.raises() for m in self.inner):
+            # a component has nothing to yield (no values; one value for a corrected variance)
+            if outcome[0] != "exc":
+                return [("aggregate", "empty", "an error (a component cannot be computed)", outcome)]
+            return []
         if self.n == 0 and any(isinstance(m, MeanModel) for m in self.inner):
-            return self.inner[0].judge_empty(outcome)
+            return self.inner[0].judge_empty(outcome)       # pass_on_empty components: nothing
         item = self._one(outcome, problems)
         if problems:
             return problems
@@ -319,6 +362,44 @@ class VectorModel(Model):
 
     def abstract(self):
         return ("vec", tuple(m.abstract() for m in self.inner), _fz(self.last_context()))
+
+
+class ZipModel(Model):
+    """Zip of accumulators: every branch is filled with every value; the results of the branches are
+    zipped into one tuple.  The branches here keep the context of the last filled value and add no
+    key of their own, so their contexts are equal and the zipped value carries exactly that context
+    (no "zip" sub-context of differences)."""
+
+    def __init__(self, inner):
+        Model.__init__(self)
+        self.inner = inner          # scalar models with data_ok()/expected_data()
+
+    def fill(self, value):
+        Model.fill(self, value)
+        for m in self.inner:
+            m.fill(value)
+
+    def judge(self, outcome, objs):
+        problems = []
+        if any(isinstance(m, MeanModel) and m.raises() for m in self.inner):
+            if outcome[0] != "exc":
+                return [("aggregate", "empty", "an error (a branch cannot be computed)", outcome)]
+            return []
+        item = self._one(outcome, problems)
+        if problems:
+            return problems
+        data, ctx = split_value(item)
+        if not isinstance(data, tuple) or len(data) != len(self.inner):
+            problems.append(("aggregate", "shape", "a tuple of %d results" % len(self.inner), data))
+        else:
+            for m, c in zip(self.inner, data):
+                if not m.data_ok(c):
+                    problems.append(("aggregate", "branch result", m.expected_data(), c))
+        self._context(ctx, problems)
+        return problems
+
+    def abstract(self):
+        return ("zip", tuple(m.abstract() for m in self.inner), _fz(self.last_context()))
 
 
 class StoreModel(Model):
